@@ -12,6 +12,11 @@ counted, action not applied at quorum.
 from checks import gov_common
 
 
+def generate(ctx):
+    """setup hook: Poly/Generated/GovKeys.lean must exist before the Lean library is built from a clean clone."""
+    ctx.run_extract("govkeys", ["lean"], out_lean="GovKeys.lean")
+
+
 def run(ctx):
     gov_common.run_streams(ctx, "C32", ["gov-approvals", "gov-pool", "gov-registry", "gov-admission"],
                            "Poly.Props.C32.takes_effect_exactly_at / fires_exactly_when_quorum_reached")
